@@ -681,11 +681,125 @@ def gen_merge(record: dict) -> str:
     return "\n".join(out)
 
 
+
+# ----------------------------------------------------------------------------------------
+# rendering profiles (C03): the expressions inside the three `_get_phase_field` and the scaling
+# ----------------------------------------------------------------------------------------
+
+
+def _is_sharp_condition(test: ast.AST) -> bool:
+    """`interface_width == 0 or np.issubdtype(dtype, bool)`"""
+    if not (isinstance(test, ast.BoolOp) and isinstance(test.op, ast.Or) and len(test.values) == 2):
+        return False
+    a, b = test.values
+    ok_a = (isinstance(a, ast.Compare) and dotted(a.left) == "interface_width" and len(a.ops) == 1
+            and isinstance(a.ops[0], ast.Eq) and isinstance(a.comparators[0], ast.Constant) and a.comparators[0].value == 0)
+    ok_b = isinstance(b, ast.Call) and dotted(b.func) == "np.issubdtype" and [dotted(x) for x in b.args] == ["dtype", "bool"]
+    return ok_a and ok_b
+
+
+def _profile_of(fd: ast.FunctionDef, radius_name: str):
+    """returns (sharp compare node, smooth expression node) of a `_get_phase_field` body"""
+    for node in ast.walk(fd):
+        if isinstance(node, ast.If) and _is_sharp_condition(node.test):
+            if len(node.body) == 1 and len(node.orelse) == 1 and all(
+                isinstance(x, ast.Assign) and dotted(x.targets[0]) == "result" for x in (node.body[0], node.orelse[0])
+            ):
+                return node.body[0].value, node.orelse[0].value
+    raise Untranslatable("no `if interface_width == 0 or np.issubdtype(dtype, bool)` with result assignments")
+
+
+def _none_width_default(fd: ast.FunctionDef) -> bool:
+    """`if self.interface_width is None: interface_width = grid.typical_discretization else: … = self.interface_width`"""
+    for node in ast.walk(fd):
+        if (isinstance(node, ast.If) and isinstance(node.test, ast.Compare) and dotted(node.test.left) == "self.interface_width"
+                and isinstance(node.test.ops[0], ast.Is) and isinstance(node.test.comparators[0], ast.Constant) and node.test.comparators[0].value is None):
+            b, o = node.body[0], node.orelse[0]
+            if (isinstance(b, ast.Assign) and dotted(b.value) == "grid.typical_discretization" and dotted(b.targets[0]) == "interface_width"
+                    and isinstance(o, ast.Assign) and dotted(o.value) == "self.interface_width"):
+                return True
+    return False
+
+
+def gen_profile(record: dict) -> str:
+    out = [
+        "/- GENERATED by tools/py2lean.py from droplets/droplets.py (_get_phase_field, get_phase_field) — do not edit. -/",
+        "import DropletsVerif.Num",
+        "namespace DV.Gen",
+        "open DV",
+        "",
+    ]
+
+    def emit(name, params, body, ret="α"):
+        ps = " ".join(f"({p} : α)" for p in params)
+        return f"def {name} {{α : Type}} [DNum α] {ps} : {ret} :=\n  {body}\n"
+
+    def guarded(name, src, build, params, ret="α", stub=None):
+        try:
+            text, h = build()
+            record[name] = {"source": src, "ast_sha": h, "status": "ok"}
+            out.append(text)
+        except Untranslatable as e:
+            record[name] = {"source": src, "status": "untranslated", "why": str(e)}
+            ps = " ".join(f"({p} : α)" for p in params)
+            val = "DNum.untranslated" if ret == "α" else "false"
+            out.append(f"/- UNTRANSLATED: {e} -/\ndef {name} {{α : Type}} [DNum α] {ps} : {ret} :=\n  {val}\n")
+
+    tree = module_tree(DRP)
+    # spherical: `(dist < self.radius).astype(dtype)`
+    def spherical():
+        fd = find_def(tree, "SphericalDroplet._get_phase_field")
+        for node in ast.walk(fd):
+            if isinstance(node, ast.Return) and isinstance(node.value, ast.Call) and isinstance(node.value.func, ast.Attribute) \
+                    and node.value.func.attr == "astype" and isinstance(node.value.func.value, ast.Compare):
+                ctx = Ctx({"dist": ("dist", "num"), "self.radius": ("R", "num")})
+                return emit("spherical_inside", ["R", "dist"], f"decide ({cond(node.value.func.value, ctx)})", "Bool"), ast_hash(fd)
+        raise Untranslatable("return (dist < self.radius).astype(dtype) not found")
+
+    guarded("spherical_inside", f"{DRP}:SphericalDroplet._get_phase_field", spherical, ["R", "dist"], "Bool")
+
+    for cls, rname, pyname in (("DiffuseDroplet", "diffuse", "self.radius"), ("PerturbedDropletBase", "perturbed", "interface")):
+        def sharp(cls=cls, rname=rname, pyname=pyname):
+            fd = find_def(tree, f"{cls}._get_phase_field")
+            cmp_node, _ = _profile_of(fd, pyname)
+            ctx = Ctx({"dist": ("dist", "num"), pyname: ("R", "num")})
+            return emit(f"{rname}_inside", ["R", "dist"], f"decide ({cond(cmp_node, ctx)})", "Bool"), ast_hash(fd)
+
+        def smooth(cls=cls, rname=rname, pyname=pyname):
+            fd = find_def(tree, f"{cls}._get_phase_field")
+            _, expr_node = _profile_of(fd, pyname)
+            if not _none_width_default(fd):
+                raise Untranslatable("the None-width default (grid.typical_discretization) is not the documented if/else")
+            ctx = Ctx({"dist": ("dist", "num"), pyname: ("R", "num"), "interface_width": ("w", "num")})
+            return emit(f"{rname}_smooth", ["R", "w", "dist"], expr(expr_node, ctx)), ast_hash(fd)
+
+        guarded(f"{rname}_inside", f"{DRP}:{cls}._get_phase_field", sharp, ["R", "dist"], "Bool")
+        guarded(f"{rname}_smooth", f"{DRP}:{cls}._get_phase_field", smooth, ["R", "w", "dist"])
+
+    def scale():
+        fd = find_def(tree, "SphericalDroplet.get_phase_field")
+        for node in ast.walk(fd):
+            if isinstance(node, ast.Assign) and dotted(node.targets[0]) == "data" and isinstance(node.value, ast.BinOp):
+                ctx = Ctx({"vmin": ("vmin", "num"), "vmax": ("vmax", "num"), "data": ("x", "num")})
+                return emit("scale_field", ["vmin", "vmax", "x"], expr(node.value, ctx)), ast_hash(fd)
+        raise Untranslatable("data = vmin + (vmax - vmin) * data not found")
+
+    guarded("scale_field", f"{DRP}:SphericalDroplet.get_phase_field", scale, ["vmin", "vmax", "x"])
+    out.append("""/-- the branch structure shared by the diffuse and perturbed renderers:
+`if interface_width == 0 or np.issubdtype(dtype, bool): dist < R  else: smooth profile` -/
+def render_value {α : Type} [DNum α] (inside : α → α → Bool) (smooth : α → α → α → α)
+    (R w dist : α) (boolDtype : Bool) : α :=
+  if DNum.eqz w = true ∨ boolDtype = true then (if inside R dist = true then DNum.lit 1 else DNum.lit 0)
+  else smooth R w dist
+""")
+    out.append("end DV.Gen\n")
+    return "\n".join(out)
+
 # ----------------------------------------------------------------------------------------
 # driver
 # ----------------------------------------------------------------------------------------
 
-GENERATORS = {"Spherical": gen_spherical, "Merge": gen_merge}
+GENERATORS = {"Spherical": gen_spherical, "Merge": gen_merge, "Profile": gen_profile}
 
 
 def write_if_changed(path: Path, text: str) -> bool:
